@@ -19,6 +19,7 @@ type c10Case struct {
 	Waiters  int      `json:"waiters"`
 	Order    []int    `json:"order"`            // spawn order: actor ids 0..H-1 = holders, H..H+W-1 = waiters
 	Yields   []uint8  `json:"yields"`           // yield counts at successive schedule points
+	Par      bool     `json:"par,omitempty"`    // real-parallel mode: spin at the schedule points instead of yielding
 	Ghosts   int      `json:"ghosts,omitempty"` // blocking/deadline kinds: earlier callers that blocked and gave up (cancelled) before the scenario
 }
 
@@ -55,6 +56,7 @@ func runC10(t *testing.T, c c10Case) kit.Outcome {
 func runC10InBubble(c c10Case) (out kit.Outcome) {
 	t0 := time.Now()
 	sc := newSched(c.Yields)
+	sc.spin = c.Par
 	sc.arm(false)
 	st, err := buildStack(c.Stack, nil, sc, t0)
 	if err != nil {
@@ -187,12 +189,24 @@ func TestC10_sampled_Coop(t *testing.T) {
 	})
 }
 
+// Real threads inside the bubble (all cores): the same scenario with spin delays at the schedule
+// points covers memory-level interleavings a cooperative schedule cannot produce.
+func TestC10_parallel(t *testing.T) {
+	kit.RequireMode(t, "std")
+	kit.Check(t, kit.Prop[c10Case]{
+		ID: "C10", Quick: 3000, Thor: 300_000,
+		Rule: "as TestC10_sampled_Coop but with real parallelism inside the bubble (spins instead of yields); non-trivial by the same rule",
+		Gen:  func(t *rapid.T) c10Case { c := genC10(t); c.Par = true; return c }, Run: runC10, NoShrink: true,
+	})
+}
+
 // Exhaustive enumeration of a small schedule space (quick tier): every spawn order of
 // {1 holder + 1 waiter, 1 holder + 2 waiters, 2 holders + 1 waiter} x yields in {0,1,3}^5.
 func TestC10_enum_Coop(t *testing.T) {
 	kit.RequireMode(t, "coop")
 	if kit.Replay != "" {
-		t.Skip("enumeration has no replay files of its own (TestC10_sampled_Coop replays any case)")
+		kit.Check(t, kit.Prop[c10Case]{ID: "C10", Run: runC10})
+		return
 	}
 	d := kit.NewDirect[c10Case](t, "C10", "exhaustive: 7 limiter kinds x 5 actor sets x all spawn orders x yields in {0,1,3}^k (k=6; thorough k=9); non-trivial as TestC10_sampled_Coop")
 	k := 6
